@@ -108,6 +108,8 @@ impl <N: NumericOps> ArrayLinalgNorms<N> for Array<N> {
                 if row_axis == col_axis {
                     return Err(ArrayError::ParameterError { param: "`axis`", message: "duplicate axes given." });
                 }
+                self.axis_in_bounds(self.normalize_axis(axis[0]))?;
+                self.axis_in_bounds(self.normalize_axis(axis[1]))?;
                 let ord = match ord {
                     Some(o) => o.to_ord()?,
                     None => NormOrd::Fro,
